@@ -14,6 +14,7 @@ import itertools
 
 import impl
 import sccgen as g
+import sccobs
 from wire import Ok, Err, Some, oracle_batch, oracle1, r_opt
 from pycaption import SCCReader
 
@@ -104,7 +105,7 @@ def wire_caps(caps):
 def run(ctx):
     rng = ctx.rng
     res = {"evaluations": 0, "nontrivial": set(), "violations": [], "disagreements": [], "distribution": {},
-           "streams": 2, "notes": []}
+           "streams": 3, "notes": []}
     dist = {"mode": {}, "perm_group_sizes": {}, "outcome": {"ok": 0, "len": 0, "no-captions": 0},
             "shared_start_streams": 0, "rows_over_32": 0, "rows_at_32_or_33": 0, "stash_unavailable": 0}
     res["distribution"] = dist
@@ -127,6 +128,19 @@ def run(ctx):
         reqs.append((1500, wire_caps(caps)))
         reqs.append((1501, [wire_caps(payload if kind == "ok" else caps), out]))
     ans = oracle_batch(reqs)
+    # second correspondence stream: the FULL decoder model (request 600) on the same streams: outcome + exact message
+    full = sccobs.model_batch([(c[4], 0) for c in cases])
+    for (gid, mode, doubled, loads, stream), (kind, payload, stash), m in zip(cases, obs, full):
+        if kind == "len":
+            same = isinstance(m, tuple) and m[1] == payload
+        elif kind == "ok":
+            same = isinstance(m, Ok) and [sccobs.cap_text(c) for c in m.v] == [t for _, t in payload]
+        else:
+            same = isinstance(m, Err) and m.code == payload
+        if not same:
+            res["disagreements"].append({"which": "full decoder model", "stream": stream,
+                                         "impl": [kind, payload if kind != "ok" else [t for _, t in payload]],
+                                         "model": repr(m)[:300]})
     by_group = {}
     for i, ((gid, mode, doubled, loads, stream), (kind, payload, stash)) in enumerate(zip(cases, obs)):
         res["evaluations"] += 1
